@@ -18,6 +18,7 @@ import (
 	"github.com/dtn7/dtn7-go/verif/gen"
 	"github.com/dtn7/dtn7-go/verif/par"
 	"github.com/dtn7/dtn7-go/verif/ref"
+	"github.com/dtn7/dtn7-go/verif/vtime"
 )
 
 func init() {
@@ -253,6 +254,74 @@ func c12MTCP(r *ev.Run, thorough bool, st *c12Stats) {
 			if !gone {
 				r.Violation("C12/mtcp-peer-not-reported-gone", "mtcp", "Send failed but no PeerDisappeared was emitted", c)
 			}
+		}
+	}
+}
+
+// gatedConn holds the k-th Write open (announcing it on entered) until the gate is closed.
+type gatedConn struct {
+	writeConn
+	mu      sync.Mutex
+	holdAt  int
+	entered chan struct{}
+	gate    chan struct{}
+}
+
+func (c *gatedConn) Write(p []byte) (int, error) {
+	c.mu.Lock()
+	k := c.n
+	hold := k == c.holdAt
+	if hold {
+		c.holdAt = -1 // only once: a concurrent writer must not be held (or announce) again
+	}
+	c.mu.Unlock()
+	if hold {
+		close(c.entered)
+		<-c.gate
+	}
+	c.mu.Lock()
+	defer c.mu.Unlock()
+	return c.writeConn.Write(p)
+}
+
+// c12KeepaliveDuringSend: the client's keep-alive ticker fires while Send is in the middle of writing a frame that
+// needs several Write calls. The harness decides when the held Write returns; the stream the server sees must still
+// be the bundle (keep-alives invisible).
+func c12KeepaliveDuringSend(r *ev.Run, st *c12Stats) {
+	bs := c12Bundles()
+	big := bs[2]
+	enc, _ := gen.Ser(&big)
+	probe := &writeConn{failAt: -1}
+	if err := mtcp.VerifNewClient(probe, gen.MustEID("dtn://peer/")).Send(big); err != nil || probe.n < 3 {
+		r.Note(fmt.Sprintf("keep-alive-during-send not run: a healthy send of the large bundle needs %d writes", probe.n))
+		return
+	}
+	for hold := 0; hold < probe.n-1; hold++ { // the last write is the probe after the frame
+		st.clientCases++
+		useVirtualClock()
+		gc := &gatedConn{writeConn: writeConn{failAt: -1}, holdAt: hold, entered: make(chan struct{}), gate: make(chan struct{})}
+		cl := mtcp.VerifNewClientLive(gc, gen.MustEID("dtn://peer/"))
+		waitFor(func() bool { return vtime.PendingTimers() > 0 }) // the handler has armed its ticker
+		sendDone := make(chan error, 1)
+		go func() { sendDone <- cl.Send(big) }()
+		<-gc.entered
+		vtime.Advance(5 * time.Second)    // the keep-alive tick is handed to the handler
+		time.Sleep(30 * time.Millisecond) // scheduling aid only: lets the handler act before the held Write returns
+		close(gc.gate)
+		err := <-sendDone
+		vtime.Advance(5 * time.Second) // and one more keep-alive after the frame
+		_ = cl.Close()
+		gc.mu.Lock()
+		stream := append([]byte(nil), gc.buf.Bytes()...)
+		gc.mu.Unlock()
+		c := map[string]interface{}{"keep_alive_tick_during_write": hold, "writes": probe.n}
+		if err != nil {
+			r.Violation("C12/mtcp-send-fails-on-healthy-connection", "mtcp", "keep-alive during Send: "+err.Error(), c)
+			continue
+		}
+		got, p := mtcpServe(stream)
+		if p != nil || len(got) != 1 || !bytes.Equal(got[0], enc) {
+			r.Violation("C12/mtcp-keepalive-inside-frame", "mtcp", fmt.Sprintf("a keep-alive tick fired while Send was inside write call %d of %d of one frame; the server then understood %d bundles (panic %v) instead of exactly the bundle sent", hold, probe.n, len(got), p), c)
 		}
 	}
 }
@@ -503,6 +572,7 @@ func runC12(r *ev.Run, thorough bool) int {
 	useVirtualClock()
 	var st c12Stats
 	c12MTCP(r, thorough, &st)
+	c12KeepaliveDuringSend(r, &st)
 	c12BBC(r, thorough, &st)
 	r.Add("mtcp_streams", st.streams)
 	r.Add("mtcp_stream_cuts", st.cuts)
